@@ -241,6 +241,7 @@ def spec_ids(spec):
     return [eid(e) for e in spec["events"]]
 
 
+SCALAR_IDS = sorted({ID[v] for v in UNIVERSE if isinstance(v, (str, int, float)) })
 NUMVAL = {ID[1]: "1", ID[0]: "0", ID[2]: "2", ID[-1]: "-1", ID[2.5]: "5/2"}
 COLLIDING = [ps for ps in POS_OF_ID.values() if len(ps) >= 2]
 
@@ -295,6 +296,14 @@ def gen_case(rng):
               "weights": [rng.choice(TINY + ["1"]) if k_ in tiny_ix else "0" for k_ in range(n1_)]}
     targets = rng.sample(range(NID), rng.randint(1, 3))
     proj_ids = [rng.choice(targets) if rng.random() < .8 else rng.randrange(NID) for _ in range(NID)]
+    scalar_image = rng.random() < (.45 if d1["kind"] == "table" else .1)
+    if scalar_image:
+        # the projection's image mixes str and numeric events only (1 next to '1', 2.5, '', 'a', 0, -1):
+        # anything that sorts / uniques the projected events through an array coerces them
+        targets = rng.sample(SCALAR_IDS, rng.randint(2, 4))
+        if rng.random() < .6:
+            targets = list({ID[1], ID["1"]} | set(targets[:2]))
+        proj_ids = [rng.choice(targets) for _ in range(NID)]
     lm = rng.random()
     if lm < .2:     # predicate returning bool
         like_ids = [["bool", rng.random() < .6] for _ in range(NID)]
@@ -353,7 +362,7 @@ def gen_case(rng):
         "real": [[enc(v), real_ids[ID[v]]] for v in UNIVERSE],
         "kern": [[enc(UNIVERSE[POS_OF_ID[i][0]]), kern[i]] for i in sup1],
         "a": a, "b": b, "ab_int": ab_int, "default_real": default_real, "shadow": shadow,
-        "kern_shared": kern_shared, "tiny_decides": tiny_decides,
+        "kern_shared": kern_shared, "tiny_decides": tiny_decides, "scalar_image": scalar_image,
         "gdraws": gdraws, "mixed_order": [rng.randrange(64) for _ in range(12)], "neg": [enc(UNIVERSE[neg[0]]), enc(UNIVERSE[neg[1]])],
         "script": script, "seed": rng.choice([0, 0, 1, rng.randrange(2**32), rng.randrange(2**32)]), "nseeded": 6,
         "_proj_ids": proj_ids, "_like": like_ids, "_real": real_ids,
@@ -488,16 +497,28 @@ def close(x, y, scale=0):
     return abs(x - y) <= max(TOL * max(abs(y), scale), F(1, 2**1000))
 
 
+def xid(x):
+    """id of an encoded event; an event outside the universe (e.g. the string '2.5' produced by a coercion)
+    gets a key of its own, so that it shows up as a wrong event instead of crashing the oracle"""
+    try:
+        return ID[dec(x)]
+    except (KeyError, TypeError, ValueError):
+        return ("outside-universe", repr(x))
+
+
 def as_measure(items, joint=False):
     m = {}
     for e, p in items:
         if isinstance(p, str):
             return None
         if joint:
-            t = dec(e)
-            key = (ID[t[0]], ID[t[1]])
+            try:
+                t = dec(e)
+                key = (ID[t[0]], ID[t[1]])
+            except (KeyError, TypeError, IndexError, ValueError):
+                key = ("outside-universe", repr(e))
         else:
-            key = eid(e)
+            key = xid(e)
         if key in m:
             return None
         m[key] = vlib.frac(p)
@@ -536,7 +557,13 @@ def oracle(case, res, subnormal=False):
             bad[op] = "%s raises %s although the operation is defined" % (op, r.get("error"))
             return
         if not same_measure(as_measure(r, joint), want, subnormal):
-            bad[op] = "%s is not the measure the probability calculus prescribes" % op
+            got_ = as_measure(r, joint)
+            if got_ is not None and any(isinstance(k_, tuple) and k_ and k_[0] == "outside-universe" for k_ in got_):
+                bad[op] = "%s returns events that are not events of the inputs (wrong events)" % op
+            elif op == "marginalize":
+                bad[op] = "marginalize does not sum the probabilities of merged events"
+            else:
+                bad[op] = "%s is not the measure the probability calculus prescribes" % op
 
     want = {}
     for x, p in m1.items():
@@ -575,7 +602,7 @@ def oracle(case, res, subnormal=False):
     chk("and", {x: p * m2[x] / N for x, p in m1.items() if x in m2} if N > 0 else {}, defined=and_defined)
     if N > 0 and isinstance(res["and"], list) and "and" not in bad:
         try:
-            if sorted(eid(e) for e, _ in res["and"]) != sorted(x for x in m1 if x in m2):
+            if sorted(map(str, (xid(e) for e, _ in res["and"]))) != sorted(map(str, (x for x in m1 if x in m2))):
                 bad["and"] = "conjunction is not supported on the common support"
         except KeyError:
             pass
@@ -584,12 +611,18 @@ def oracle(case, res, subnormal=False):
     if isinstance(ex, (dict, str)) or not close(vlib.frac(ex), wantx, scale=sum(abs(g[x]) * p for x, p in m1.items())):
         bad["expectation"] = "expectation is not the probability-weighted sum"
     chk("normalize", {x: p / mass1 for x, p in m1.items()} if mass1 > 0 else {}, defined=mass1 > 0)
+    # equal seeds, equal sequences: whatever the distributions are
+    bt = res.get("batches") or {}
+    if bt.get("same") is False:
+        bad["sample-seed"] = "equally seeded generators gave different batches (k > 1) of samples"
+    if (res.get("mixed") or {}).get("same") is False:
+        bad["sample-seed"] = "equally seeded generators gave different sample sequences"
     # sampling: only events of positive probability
     if pos1 and mass1 > 0:
         for dr in res["draws"]:
             if "error" in dr:
                 bad["sample"] = "sample raises %s on a distribution of positive mass" % dr["error"]
-            elif m1.get(eid(dr["event"]), 0) <= 0:
+            elif m1.get(xid(dr["event"]), 0) <= 0:
                 bad["sample"] = "sample returned an event of probability zero"
         mx = res.get("mixed") or {}
         if "error" in mx or mx.get("same") is False:
@@ -609,7 +642,7 @@ def oracle(case, res, subnormal=False):
                 continue
             if isinstance(ev, str):
                 bad["sample"] = "sample raises %s on a distribution of positive mass" % ev
-            elif mm.get(eid(ev), 0) <= 0:
+            elif mm.get(xid(ev), 0) <= 0:
                 bad["sample"] = "sample returned an event of probability zero"
         more = [d_ for d_ in res.get("gdraws", [])]
         kd = res.get("kdraw") or {}
@@ -617,13 +650,13 @@ def oracle(case, res, subnormal=False):
         for dr in more:
             if "error" in dr:
                 bad["sample"] = "sample raises %s on a distribution of positive mass" % dr["error"]
-            elif m1.get(eid(dr["event"]), 0) <= 0:
+            elif m1.get(xid(dr["event"]), 0) <= 0:
                 bad["sample"] = "sample returned an event of probability zero"
         sd = res["seeded"]
         if "error" in sd:
             bad["sample"] = "sample raises %s on a distribution of positive mass" % sd["error"]
         else:
-            if any(m1.get(eid(e), 0) <= 0 for e in sd["seq"] + sd["plain_seq"]):
+            if any(m1.get(xid(e), 0) <= 0 for e in sd["seq"] + sd["plain_seq"]):
                 bad["sample"] = "sample returned an event of probability zero"
             if not (sd["same_recording"] and sd["same_plain"]):
                 bad["sample-seed"] = "equally seeded generators gave different sample sequences"
@@ -790,7 +823,8 @@ def run(ctx):
            "tiny_weight_entries_2^-27..2^-60": 0, "tiny_decides_cases": 0, "posterior_carried_by_tiny_entries": 0,
            "and_common_mass_below_2^-50": 0, "tiny_scalars": 0, "near_tie_large_dists": 0, "non_dyadic_dists": 0,
            "supports_of_10_or_more": 0, "kernel_shared_object": 0,
-           "and_subnormal_common_mass_unnormalised_answers": 0,
+           "and_subnormal_common_mass_unnormalised_answers": 0, "projection_image_mixes_str_and_numbers": 0,
+           "table_projection_image_mixes_str_and_numbers": 0, "seeded_batches_k>1": 0, "global_generator_consumed": 0,
            "generator_consumption_drift": 0, "sample_mirror_drift": 0, "sample_k_shape_drift": 0, "mixed_sequence_draws": 0}
     reps = {}
     FALSY = {ID[v] for v in UNIVERSE if not v}
@@ -909,7 +943,12 @@ def run(ctx):
             terms.append(case_term(case, res, draws))
             meta.append(i)
         except KeyError as ex:
-            viol("C11:event-outside-universe", i, {"error": repr(ex)}, False)
+            why = oracle(case, res)
+            if why:
+                op = sorted(why)[0]
+                viol("C11:%s:%s" % (op, why[op][:80]), i, {"failing_clause": why, "impl": res, "error": repr(ex)}, True)
+            else:
+                viol("C11:event-outside-universe", i, {"error": repr(ex)}, False)
             continue
         for nm, other in (("d1", "d2"), ("d2", "d1")):
             sp = case[nm]
@@ -935,6 +974,11 @@ def run(ctx):
         cnt["int_scalars"] += bool(case.get("ab_int"))
         cnt["seed_zero"] += case["seed"] == 0
         cnt["tiny_decides_cases"] += bool(case.get("tiny_decides"))
+        if case.get("scalar_image"):
+            img = {case["_proj_ids"][x_] for x_ in spec_ids(case["d1"])}
+            if any(isinstance(UNIVERSE[POS_OF_ID[x_][0]], str) for x_ in img) and any(not isinstance(UNIVERSE[POS_OF_ID[x_][0]], str) for x_ in img):
+                cnt["projection_image_mixes_str_and_numbers"] += 1
+                cnt["table_projection_image_mixes_str_and_numbers"] += case["d1"]["kind"] == "table"
         cnt["kernel_shared_object"] += bool(case.get("kern_shared"))
         cnt["tiny_scalars"] += any(0 < F(case[k_]) <= F(1, 2**27) for k_ in ("a", "b"))
         pk = case["d1"]["kind"] + "x" + case["d2"]["kind"]
@@ -1217,7 +1261,31 @@ def run(ctx):
                             problems["sample"] = "sample of %s raises %s on a distribution of positive mass" % (nm, ev)
                     elif ok_q and mm.get(eid(ev), 0) <= 0:
                         problems["sample"] = "sample of %s returned an event of probability zero" % nm
-        nops += 3
+        # ---- batched draws (k > 1), private generators equally seeded, global generators in different states ----
+        bt = res.get("batches")
+        if bt is not None:
+            if "error" in bt:
+                problems["sample-seed"] = "batched sampling sequence raises %s" % bt["error"]
+            else:
+                cnt["seeded_batches_k>1"] += sum(1 for x in bt["seq"] if x[1] > 1)
+                if not bt["same"]:
+                    problems["sample-seed"] = "equally seeded generators gave different batches (k > 1) of samples"
+                if bt["global_touched"]:
+                    cnt["global_generator_consumed"] += 1
+                kspec = [v for _, v in case["kern"]]
+                kit = [v for _, v in res["kern_items"]]
+                for nm, k_, evs in bt["seq"]:
+                    mm = ({x: p for x, p in items1} if nm == "d1" else {x: p for x, p in v2[0]} if nm == "d2"
+                          else measure(kspec[int(nm[1:])], kit[int(nm[1:])] if isinstance(kit[int(nm[1:])], list) else []))
+                    ok_q = bool(mm) and sum(mm.values()) > 0 and all(p >= 0 for p in mm.values())
+                    if isinstance(evs, str):
+                        if ok_q:
+                            problems["sample"] = "sample(k=%d) of %s raises %s on a distribution of positive mass" % (k_, nm, evs)
+                        continue
+                    lst = [evs[1]] if evs and evs[0] == "bare" else evs
+                    if ok_q and any(mm.get(xid(e), 0) <= 0 for e in lst):
+                        problems["sample"] = "sample(k=%d) of %s returned an event of probability zero" % (k_, nm)
+        nops += 4
 
         # ---- second-order uses of the same objects ----
         r2 = res.get("isnorm_custom")
